@@ -333,6 +333,76 @@ fn hostile(t: &mut Tape) -> String {
     }
 }
 
+/// Text the byte-oriented paths of string functions trip over: multi-byte
+/// characters at both ends, combining marks, 4-byte code points, pattern and
+/// JSON / URL metacharacters.
+const ODD_TEXT: &[&str] = &[
+    "", "a", "abc", "é", "café", "naïve café", "日本語", "日本語テキスト", "a日b", "😀", "x😀y😀", "e\u{301}", "ß", "İ", "ǅ", "\u{feff}a", "  pad  ", "%", "a%b_c", "(", "[a-", "\\", "*", "a|b", "(?P<n>x)", "$1", "{\"a\":[1,2,{\"b\":null}]}", "[1,2", "http://u:p@h.example:8080/p/q?k=v&k2=é#f", "://", "2024-02-30", "0000-00-00", "12:61:00", "1e999", "-0", "9223372036854775808", "1,2,3", ",", "aaaaaaaaaaaaaaaaaaaaaaaaaaaaaaaaaaaaaaaa",
+];
+const ODD_NUMS: &[&str] = &["0", "1", "2", "3", "-1", "-2", "5", "7", "16", "36", "37", "64", "100", "255", "256", "-2147483648", "2147483647", "2147483648", "9223372036854775807", "-9223372036854775807", "0.5", "-0.5", "1e308", "-1e308", "1e-320", "100000"];
+
+fn function_names() -> &'static Vec<&'static str> {
+    static C: std::sync::OnceLock<Vec<&'static str>> = std::sync::OnceLock::new();
+    C.get_or_init(|| include_str!("../../corpus/function_names.txt").lines().map(|s| s.trim()).filter(|s| !s.is_empty()).collect())
+}
+
+fn sql_text(s: &str) -> String {
+    format!("'{}'", s.replace('\'', "''"))
+}
+
+/// One call of a function the binder knows, with 0..4 arguments drawn from
+/// columns of the generated tables, odd text, edge numbers, NULL, dates, arrays
+/// and (one level of) nested calls; placed in the SELECT list, a WHERE
+/// predicate, a GROUP BY key or an aggregate argument.
+fn function_call(t: &mut Tape, tables: &[Table], depth: u32) -> String {
+    let names = function_names();
+    let f = names[t.pick(names.len())];
+    let n_args = [1usize, 2, 2, 3, 1, 0, 4][t.pick(7)];
+    let mut args = vec![];
+    for _ in 0..n_args {
+        let a = match t.pick(12) {
+            0 | 1 | 2 => {
+                let tb = &tables[0];
+                let c = &tb.cols[t.pick(tb.cols.len())];
+                c.name.clone()
+            }
+            3 | 4 | 5 => sql_text(ODD_TEXT[t.pick(ODD_TEXT.len())]),
+            6 | 7 => ODD_NUMS[t.pick(ODD_NUMS.len())].to_string(),
+            8 => "NULL".to_string(),
+            9 => ["DATE '2024-02-29'", "DATE '0001-01-01'", "DATE '9999-12-31'", "TRUE", "FALSE", "'day'", "'month'", "'%Y-%m-%d'"][t.pick(8)].to_string(),
+            10 => ["ARRAY[1,2,3]", "ARRAY[]", "ARRAY['é','日本']", "ARRAY[NULL]", "ARRAY[1.5, NULL]"][t.pick(5)].to_string(),
+            _ if depth == 0 => function_call(t, tables, 1),
+            _ => sql_text(ODD_TEXT[t.pick(ODD_TEXT.len())]),
+        };
+        args.push(a);
+    }
+    format!("{}({})", f, args.join(", "))
+}
+
+fn function_statement(t: &mut Tape, tables: &mut Vec<Table>) -> String {
+    // put odd text into the string cells of the first table so that column
+    // arguments carry it too (the generated tables are ASCII-only)
+    if let Some(tb) = tables.first_mut() {
+        for row in tb.rows.iter_mut() {
+            for v in row.iter_mut() {
+                if let Value::Str(_) = v {
+                    if t.chance(60) {
+                        *v = Value::Str(ODD_TEXT[t.pick(ODD_TEXT.len())].to_string());
+                    }
+                }
+            }
+        }
+    }
+    let name = tables[0].name.clone();
+    let call = function_call(t, tables, 0);
+    match t.pick(6) {
+        0 | 1 | 2 => format!("SELECT {} FROM {}", call, name),
+        3 => format!("SELECT COUNT(*) FROM {} WHERE {} IS NOT NULL", name, call),
+        4 => format!("SELECT {} AS k, COUNT(*) FROM {} GROUP BY {}", call, name, call),
+        _ => format!("SELECT {}", call),
+    }
+}
+
 fn corpus() -> &'static Vec<String> {
     static C: std::sync::OnceLock<Vec<String>> = std::sync::OnceLock::new();
     C.get_or_init(|| {
@@ -351,9 +421,9 @@ fn case_strategy() -> BoxedStrategy<CrashCase> {
     tp.max_rows = 6;
     tp.min_tables = 3;
     (tables_strategy(tp), proptest::collection::vec(any::<u16>(), 0..260))
-        .prop_map(|(tables, tape)| {
+        .prop_map(|(mut tables, tape)| {
             let mut t = Tape::new(tape.clone());
-            let kind = t.pick(10);
+            let kind = t.pick(13);
             let rest: Vec<u16> = tape.iter().skip(1).copied().collect();
             let (sql, source) = match kind {
                 0 | 1 | 2 => {
@@ -376,6 +446,7 @@ fn case_strategy() -> BoxedStrategy<CrashCase> {
                     let c = corpus();
                     (c[t.pick(c.len())].clone(), "corpus")
                 }
+                10 | 11 | 12 => (function_statement(&mut t, &mut tables), "function_calls"),
                 _ => {
                     let c = corpus();
                     let s = c[t.pick(c.len())].clone();
@@ -494,6 +565,76 @@ impl Check for NoCrash {
     }
 }
 
+/// The *function grid*: every function name the binder knows, called with
+/// every argument tuple of arity 0..2 over a 9-value pool and of arity 3 over a
+/// 6-value pool (a string column holding multi-byte text, an integer column
+/// with NULL and extremes, multi-byte / ASCII literals, 1, -1, i64::MAX, 0.5,
+/// NULL). Enumerated completely on every run, consumed by 12 threads.
+pub struct FunctionGrid;
+
+fn grid_tables() -> Vec<Table> {
+    vec![Table {
+        name: "r".into(),
+        cols: vec![Column { name: "a".into(), ty: ColType::Int }, Column { name: "b".into(), ty: ColType::Str }],
+        rows: vec![
+            vec![Value::Int(1), Value::Str("café".into())],
+            vec![Value::Null, Value::Str("x😀y".into())],
+            vec![Value::Int(-3), Value::Null],
+            vec![Value::Int(i64::MAX), Value::Str("".into())],
+            vec![Value::Int(40), Value::Str("日本語テキスト".into())],
+        ],
+    }]
+}
+
+const GRID_POOL: &[&str] = &["b", "a", "'é日'", "'abc'", "1", "-1", "9223372036854775807", "0.5", "NULL"];
+const GRID_POOL3: &[&str] = &["b", "'a日é'", "2", "-1", "9223372036854775807", "NULL"];
+
+fn grid_statements() -> impl Iterator<Item = String> {
+    function_names().iter().flat_map(|f| {
+        let mut v = vec![format!("SELECT {}() FROM r", f)];
+        for x in GRID_POOL {
+            v.push(format!("SELECT {}({}) FROM r", f, x));
+            for y in GRID_POOL {
+                v.push(format!("SELECT {}({}, {}) FROM r", f, x, y));
+            }
+        }
+        for x in GRID_POOL3 {
+            for y in GRID_POOL3 {
+                for z in GRID_POOL3 {
+                    v.push(format!("SELECT {}({}, {}, {}) FROM r", f, x, y, z));
+                }
+            }
+        }
+        v.into_iter()
+    })
+}
+
+impl Check for FunctionGrid {
+    type Case = CrashCase;
+    fn name(&self) -> &'static str {
+        "function_grid"
+    }
+    fn rule(&self) -> &'static str {
+        "the call got past the binder (the engine answered Ok, or failed with a non-parse, non-bind error class: the function's evaluator ran)"
+    }
+    fn cases(&self, _tier: Tier) -> u32 {
+        0
+    }
+    fn exhaustive_workers(&self, _t: Tier) -> usize {
+        12
+    }
+    fn exhaustive(&self, _t: Tier) -> Option<Box<dyn Iterator<Item = CrashCase> + '_>> {
+        let tables = grid_tables();
+        Some(Box::new(grid_statements().map(move |sql| CrashCase { tables: tables.clone(), sql, source: "function_grid".into() })))
+    }
+    fn strategy(&self, _tier: Tier) -> BoxedStrategy<CrashCase> {
+        case_strategy()
+    }
+    fn test(&self, c: &CrashCase, obs: &mut Obs) -> Verdict {
+        NoCrash.test(c, obs)
+    }
+}
+
 pub fn property() -> Property {
     Property {
         id: "C29",
@@ -502,6 +643,6 @@ pub fn property() -> Property {
             "a hang is only reported after the statement also exceeds 90 s alone in a fresh process on tables of <= 6 rows + TPC-H SF 0.001",
             "engine panics are observed through a panic hook in the worker (also when the engine converted a panic on one of its threads into an error)",
         ],
-        checks: vec![Box::new(NoCrash)],
+        checks: vec![Box::new(NoCrash), Box::new(FunctionGrid)],
     }
 }
